@@ -28,6 +28,10 @@ def run(ctx):
     RS.consistency_group(ctx, "R01.g", include_memo=False, frame=False)
     # unchecked accesses abort in a checked build (debug preconditions) and are UB otherwise
     R19.discharge_sites(ctx)
+    # geometry of derived matches: a wrong length of a split half / joined word is an out-of-range slice later on
+    from . import r_join as RJ
+    RJ.split_formula(ctx, "R01.i")
+    RJ.join_formula(ctx, "R01.i")
     return info("R01.a: lock-order style RefCell analysis over the whole call graph — no call executed while a guard is live can "
                 "reach a conflicting borrow of the same cell; R01.b: no unsigned subtraction with a float-derived operand; R01.c: "
                 "no reduction shrinks, window >= 1; R01.d: normalize first; R01.e: every reachable explicit panic/unwrap is a "
